@@ -151,7 +151,9 @@ pub fn zone_event(tz: &Tz, secs: i64, ns: u32, text_off: i32) -> J {
 pub fn rec(out: &mut Out, seed: u64, per_zone: usize) {
     let mut rng = Rng::new(seed);
     let zones = unambiguous_zones();
-    let nanos = [0u32, 123_000_000, 123_456_789, 999_999_999, 500_000_000];
+    // the fraction family: no fraction, 3 / 9 digits, and fractions whose first non-zero digit stands at each position
+    // (a writer that prints the fraction as an integer loses the zeros in front of it)
+    let nanos = [0u32, 123_000_000, 123_456_789, 999_999_999, 500_000_000, 45_000_000, 7_000_000, 250_000, 1, 10_000_001, 50_000, 900];
     for tz in &zones {
         let mut tr = transitions(tz);
         if per_zone > 0 && tr.len() > per_zone {
@@ -170,7 +172,7 @@ pub fn rec(out: &mut Out, seed: u64, per_zone: usize) {
             instants.extend_from_slice(&[t - 1, *t, t + 1, t - 1800, t + 1800]);
         }
         for (i, t) in instants.iter().enumerate() {
-            let ns = nanos[(i + rng.below(5)) % 5];
+            let ns = nanos[(i + rng.below(nanos.len())) % nanos.len()];
             let text_off = (rng.range(-48, 56) * 900) as i32;
             out.emit(zone_event(tz, *t, ns, text_off));
         }
